@@ -45,11 +45,22 @@ def gen_scenario(rng, index):
     max_ops = 4 if n_threads <= 4 else 2
     mix = rng.choice(["recompile-heavy", "mixed", "construct-heavy", "call-heavy"])
     if family == "race":
-        n_shared, n_threads, max_ops, mix = 1, rng.choice([2, 2, 2, 3, 4]), 2, rng.choice(["race", "race", "recompile-heavy"])
+        n_shared, n_threads, max_ops, mix = 1, rng.choice([2, 2, 2, 3, 4]), 2, rng.choice(["race", "race", "recompile-heavy", "call-vs-recompile",
+                                                                                          "call-vs-recompile"])
     shared = [rng.randrange(n_valid) for _ in range(n_shared)]
     th = []
     for _t in range(n_threads):
         ops = []
+        if mix == "call-vs-recompile":
+            # callers hammer the shared evaluator while others recompile it
+            if _t % 2 == 0:
+                for _ in range(rng.randint(1, 2)):
+                    ops.append({"op": "recompile", "s": 0, "t": rng.randrange(n_valid)})
+            else:
+                for _ in range(rng.randint(2, 5)):
+                    ops.append({"op": "call", "s": 0, "f": gen.gen_fields(rng, progs[rng.randrange(n_valid)], ascii_only=True, p_missing=0.0)})
+            th.append(ops)
+            continue
         for _ in range(rng.randint(1, max_ops)):
             r = rng.random()
             w = {"race": (0.8, 1.0, 1.0), "recompile-heavy": (0.6, 0.85, 0.95), "mixed": (0.35, 0.65, 0.85),
@@ -67,15 +78,19 @@ def gen_scenario(rng, index):
                 src = rng.randrange(n_valid)
                 ops.append({"op": "pcall", "f": gen.gen_fields(rng, progs[src], ascii_only=True)})
         th.append(ops)
-    pk = rng.choice(["bernoulli", "bernoulli", "targeted", "targeted", "targeted", "pct"])
-    if family == "race" and rng.random() < 0.5:
-        pk = "targeted"
+    pk = rng.choice(["bernoulli", "bernoulli", "targeted", "targeted", "targeted", "pct", "park", "park"])
+    if family == "race" and rng.random() < 0.6:
+        pk = rng.choice(["targeted", "park", "park"])
     if pk == "bernoulli":
         # every switch costs two OS context switches: keep the dense policy for the small 'race' workloads
         p = rng.choice([0.3, 0.03, 0.003]) if family == "race" else rng.choice([0.03, 0.003, 0.0003])
         policy = {"kind": "bernoulli", "p_line": p, "p_hot": p}
     elif pk == "targeted":
         policy = {"kind": "targeted", "p_line": rng.choice([0.0005, 0.005]), "p_hot": rng.choice([0.1, 0.3, 0.5])}
+    elif pk == "park":
+        policy = {"kind": "park", "p_line": rng.choice([0.0, 0.0005]), "p_hot": rng.choice([0.0, 0.02, 0.1]),
+                  "k_max": rng.choice([40, 160, 160, 400]), "need": rng.choice([1, 1, 2]),
+                  "mode": rng.choice(["late", "late", "uniform"]), "back": rng.randrange(0, 16)}
     else:
         policy = {"kind": "pct", "d": rng.choice([1, 2, 3])}
     return {"index": index, "texts": texts, "shared": shared, "threads": th, "policy": policy, "sched_stream": "sched",
@@ -104,20 +119,41 @@ class Runner:
     def judge(self, sc):
         judged = []
         for t in sc["texts"]:
+            h0 = threads.HOT_COUNT[0]
             try:
                 ev = self.EE(t["text"])
-                judged.append({"accepts": True, "ev": ev})
+                judged.append({"accepts": True, "ev": ev, "hot": threads.HOT_COUNT[0] - h0})
             except Exception as e:  # noqa: BLE001
-                judged.append({"accepts": False, "ev": None, "exc": type(e).__name__})
+                judged.append({"accepts": False, "ev": None, "exc": type(e).__name__, "hot": threads.HOT_COUNT[0] - h0})
         return judged
 
-    def make_chooser(self, sc, seed, decisions, est_steps):
+    @staticmethod
+    def hot_ends(sc, judged):
+        """Estimated cumulative number of hot points at the end of each operation, per thread (sequential measurements)."""
+        out = []
+        for ops in sc["threads"]:
+            acc, ends = 0, []
+            for op in ops:
+                if op["op"] in ("new", "recompile"):
+                    acc += judged[op["t"]]["hot"] + (PANEL_PROBES_AFTER_NEW * 14 if op["op"] == "new" else 0)
+                else:
+                    acc += 14
+                ends.append(acc)
+            out.append(ends)
+        return out
+
+    def make_chooser(self, sc, seed, decisions, est_steps, judged=None):
         if decisions is not None:
             return threads.ReplayChooser(decisions)
         rng = rng_for(PROP, seed, sc["index"], sc.get("sched_stream", "sched"))
         pol = sc["policy"]
         if pol["kind"] == "pct":
             return threads.PCTChooser(rng, len(sc["threads"]), est_steps, pol["d"])
+        if pol["kind"] == "park":
+            late = None
+            if pol.get("mode") == "late" and judged is not None:
+                late = (self.hot_ends(sc, judged), pol.get("back", 0))
+            return threads.ParkChooser(rng, len(sc["threads"]), pol["p_line"], pol["p_hot"], pol.get("k_max", 160), pol.get("need", 1), late)
         return threads.BernoulliChooser(rng, pol["p_line"], pol["p_hot"])
 
     def run(self, sc, seed, decisions=None):
@@ -136,12 +172,17 @@ class Runner:
 
     def _run(self, sc, seed, decisions):
         texts = sc["texts"]
-        judged = self.judge(sc)
+        try:
+            judged = self.judge(sc)
+        except threads.SimDeadlock:
+            return {"result": "skip", "why": "sequential reference deadlocks (C11's business)"}
         for k in sc["shared"]:
             if not judged[k]["accepts"]:
                 return {"result": "skip", "why": "initial text of a shared evaluator is rejected by the tree"}
         try:
             shared = [self.EE(texts[k]["text"]) for k in sc["shared"]]
+        except threads.SimDeadlock:
+            return {"result": "skip", "why": "sequential reference deadlocks (C11's business)"}
         except Exception as e:  # noqa: BLE001
             # purely sequential inconsistency (a text accepted a moment ago is now refused): C11's business, not a schedule
             return {"result": "skip", "why": "sequential reference inconsistent: " + type(e).__name__}
@@ -185,20 +226,24 @@ class Runner:
 
         n_compiles = sum(1 for ops in sc["threads"] for op in ops if op["op"] in ("new", "recompile"))
         est = 4000 * n_compiles + 200
-        chooser = self.make_chooser(sc, seed, decisions, est)
+        chooser = self.make_chooser(sc, seed, decisions, est, judged)
         sched = threads.Scheduler([make_body(i, ops) for i, ops in enumerate(sc["threads"])], chooser, self.fc)
         sched.run()
         info = {"steps": sched.step, "switches": sched.switches, "hot_points": sched.hot_points,
                 "digest": "%016x" % (sched.digest & 0xFFFFFFFFFFFFFFFF), "switch_digest": "%016x" % (sched.switch_digest & 0xFFFFFFFFFFFFFFFF),
                 "lock_acquire": sched.stats.get("lock_acquire", 0), "lock_blocked": sched.stats.get("lock_blocked", 0),
-                "lock_timeout": sched.stats.get("lock_timeout", 0), "sleep": sched.stats.get("sleep", 0)}
+                "lock_timeout": sched.stats.get("lock_timeout", 0), "sleep": sched.stats.get("sleep", 0), "parked": sched.stats.get("parked", 0)}
         res = {"result": "ok", "info": info, "decisions": [list(d) for d in sched.decisions], "hist": hist}
         try:
             if sched.deadlock is not None:
                 raise Violation("deadlock", {"blocked_threads": sched.deadlock["blocked"], "step": sched.step,
                                              "why": "no runnable thread while some are blocked on a lock: a call never returns"})
             info["overlaps"] = self.check_history(sc, judged, hist)
-            info["epilogue"] = self.epilogue(sc, judged, shared, hist)
+            try:
+                info["epilogue"] = self.epilogue(sc, judged, shared, hist)
+            except threads.SimDeadlock as e:
+                raise Violation("deadlock", {"phase": "quiescent epilogue", "why": "with nothing in flight an operation blocks on a lock that a "
+                                             "finished operation left held: it would never return", "detail": str(e)})
         except Violation as v:
             res.update(result="violation", vclass=v.vclass, detail=v.detail)
         return res
@@ -493,7 +538,7 @@ def worker(argv):
     runner = Runner()
     warmup(runner)
     agg = {"runs": 0, "skipped": 0, "steps": 0, "switches": 0, "hot_points": 0, "overlaps": 0, "epilogue_recompiles": 0,
-           "lock_acquire": 0, "lock_blocked": 0, "lock_timeout": 0, "sleep": 0, "violations": 0, "ops": 0}
+           "lock_acquire": 0, "lock_blocked": 0, "lock_timeout": 0, "sleep": 0, "parked": 0, "violations": 0, "ops": 0}
     per_policy = {}
     per_threads = {}
     interleavings = set()
@@ -509,7 +554,7 @@ def worker(argv):
                 continue
             agg["runs"] += 1
             info = res["info"]
-            for k in ("steps", "switches", "hot_points", "lock_acquire", "lock_blocked", "lock_timeout", "sleep"):
+            for k in ("steps", "switches", "hot_points", "lock_acquire", "lock_blocked", "lock_timeout", "sleep", "parked"):
                 agg[k] += info[k]
             agg["overlaps"] += info.get("overlaps", 0)
             agg["epilogue_recompiles"] += info.get("epilogue", 0)
@@ -628,6 +673,7 @@ def master(tier, seed):
         "sim_lock_blocked": agg.get("lock_blocked", 0),
         "sim_lock_timeouts_fired": agg.get("lock_timeout", 0),
         "sim_sleep_yields": agg.get("sleep", 0),
+        "delay_injections_fired": agg.get("parked", 0),
         "skipped_scenarios": agg.get("skipped", 0),
         "runs_per_policy": per_policy,
         "runs_per_thread_count": per_threads,
